@@ -84,20 +84,13 @@ func (c *Client) Metadata(ctx context.Context, req *MetadataRequest) (*MetadataR
 
 		for j, p := range t.Partitions {
 			partition := Partition{
-				Topic:    t.Name,
-				ID:       int(p.PartitionIndex),
-				Leader:   brokers[p.LeaderID],
-				Replicas: make([]Broker, len(p.ReplicaNodes)),
-				Isr:      make([]Broker, len(p.IsrNodes)),
-				Error:    makeError(p.ErrorCode, ""),
-			}
-
-			for i, id := range p.ReplicaNodes {
-				partition.Replicas[i] = brokers[id]
-			}
-
-			for i, id := range p.IsrNodes {
-				partition.Isr[i] = brokers[id]
+				Topic:           t.Name,
+				ID:              int(p.PartitionIndex),
+				Leader:          makeBrokers(brokers, p.LeaderID)[0],
+				Replicas:        makeBrokers(brokers, p.ReplicaNodes...),
+				Isr:             makeBrokers(brokers, p.IsrNodes...),
+				OfflineReplicas: makeBrokers(brokers, p.OfflineReplicas...),
+				Error:           makeError(p.ErrorCode, ""),
 			}
 
 			ret.Topics[i].Partitions[j] = partition
